@@ -32,12 +32,15 @@ RULE = ('tables.rand_spec tables (1-5 x 1-5, every layout recipe: dense/CSR/CSC/
         'edges, non-BMP; metadata kinds none/text/num/tax/nested/null/numpy scalars/tuples; naive creation dates; '
         'plus a contract test of repr(float)/float() on 20000 doubles (random bit patterns, subnormals, powers of '
         'two +-1ulp); non-trivial = a table with at least one non-zero cell; distinct by case hash')
-TRUSTED = ['hand-written model coq/Model/Json.v tied to biom/table.py (to_json, from_json, constructor, dumps) by this '
-           'correspondence run: JSON tree, key order of both writers, read-back table, dumps text of every string, '
-           'scanner result on raw literals',
+TRUSTED = ['hand-written models coq/Model/Json.v and coq/Model/JsonText.v tied to biom/table.py (to_json, from_json, '
+           'constructor, dumps) by this correspondence run: the text of the returned string character for character, '
+           'the JSON tree, key order of both writers, read-back table, dumps text of every string, scanner result on raw '
+           'literals, and what the Coq reader makes of the text (= what the stdlib parser makes of it)',
            'stdlib json module (parser used as the independent oracle for well-formedness and content)',
-           'CPython repr(float)/float(): number text is an oracle with the contract float(repr(x)) == x, '
-           'validated here on 20000 doubles as a test, not proved',
+           'CPython repr(float)/float(): number text is an oracle with the contract of fmt_contract (non-empty, only '
+           '0-9 + - . e, not an integer literal, float(repr(x)) == x), validated here on 20000 doubles as a test, not proved',
+           'json.dumps of metadata values: oracle with the contract md_contract (reads back as the value), validated by '
+           'running the Coq reader on every written document',
            'extraction (ExtrOcamlBasic only) + ocaml/driver_tail.ml, cross-checked against vm_compute on a sample']
 ASSUMPTIONS = ['matrix values are finite doubles (repr of inf/nan is not JSON); -0.0 is identified with 0.0',
                'strings are sequences of Unicode scalar values (no lone surrogates)',
